@@ -1,0 +1,48 @@
+//go:build verif
+
+// Contracts for the constructors NewTopic / NewChannel (C05, C07, C01, C12, C08), checked by
+// /verif/cmd/nsqvc. Comment-only file.
+
+package nsqd
+
+// The disk queue is created with the limits that let it store every message nsqd accepts:
+// min = the 26-byte envelope, max = max-msg-size + envelope. Recorded by ghosts on the library call.
+//@ ghost dqCalls int
+//@ ghost dqName string
+//@ ghost dqMinMsg int
+//@ ghost dqMaxMsg int
+//@ extern github.com/nsqio/go-diskqueue.New(name, dataPath, maxBytesPerFile, minMsgSize, maxMsgSize, syncEvery, syncTimeout, logf) (q)
+//@   ensures q != nil
+//@   modifies
+//@   onreturn dqCalls := dqCalls + 1
+//@   onreturn dqName := name
+//@   onreturn dqMinMsg := minMsgSize
+//@   onreturn dqMaxMsg := maxMsgSize
+//@ ghostgroup dqCalls, dqName, dqMinMsg, dqMaxMsg
+
+// Spawning the pump / notifying the lookup loop has no synchronous effect on modelled state (assumed).
+//@ benign (*github.com/nsqio/nsq/internal/util.WaitGroupWrapper).Wrap, (*github.com/nsqio/nsq/nsqd.NSQD).Notify
+// Pure helpers.
+//@ benign (github.com/nsqio/nsq/nsqd.Options).HasExperiment, github.com/nsqio/nsq/internal/quantile.New
+
+// max-msg-size fits the disk queue's int32 size field together with the envelope (validated at start-up).
+//@ pred ctorOpts(n *NSQD) := n != nil && 0 <= curOpts(n).MaxMsgSize && curOpts(n).MaxMsgSize <= 2147483621 && curOpts(n).MemQueueSize >= 0
+
+//@ func NewTopic(topicName string, nsqd *NSQD, deleteCallback func(*Topic)) *Topic
+//@   props C05 C07 C01 C12
+//@   requires ctorOpts(nsqd)
+//@   ensures[identity] result != nil && fresh(result) && result.name == topicName && result.nsqd == nsqd
+//@   ensures[own-id-factory] result.idFactory != nil && fresh(result.idFactory)
+//@   ensures[has-backend] result.backend != nil
+//@   ensures[starts-unpaused-running] result.paused == 0 && result.exitFlag == 0
+//@   ensures[disk-queue-accepts-every-message] dqCalls != old(dqCalls) ==> dqCalls == old(dqCalls) + 1 && dqName == topicName && dqMinMsg == 26 && dqMaxMsg == curOpts(nsqd).MaxMsgSize + 26
+//@   modifies dqCalls
+
+//@ func NewChannel(topicName string, channelName string, nsqd *NSQD, deleteCallback func(*Channel)) *Channel
+//@   props C05 C07 C01 C08
+//@   requires ctorOpts(nsqd)
+//@   ensures[identity] result != nil && fresh(result) && result.name == channelName && result.topicName == topicName && result.nsqd == nsqd
+//@   ensures[has-backend] result.backend != nil
+//@   ensures[running] result.exitFlag == 0 && result.paused == 0
+//@   ensures[disk-queue-accepts-every-message] dqCalls != old(dqCalls) ==> dqCalls == old(dqCalls) + 1 && dqMinMsg == 26 && dqMaxMsg == curOpts(nsqd).MaxMsgSize + 26
+//@   ensures[queues-distinct] queuesDistinct(result)
